@@ -48,6 +48,7 @@ pub struct TypedGen<'a> {
 
 const TS_LITERALS: [&str; 5] = ["2020-09-13 12:26:40", "2021-04-01 00:00:00", "2021-04-01 01:00:59", "1999-12-31 23:59:59", "2021-10-18 13:26:40"];
 const IV_LITERALS: [&str; 5] = ["0:00:00", "0:00:05", "1:00:00", "2:03:04", "25:00:00"];
+const IV_HAZARDS: [&str; 4] = ["99999999999999:00:00", "0:999999999999999999:0", "0:0:9223372036854775807", "2562047788015215:30:07"];
 
 impl<'a> TypedGen<'a> {
     pub fn new(scope: &'a Scope, cfg: GenCfg, ctx: &'a Ctx) -> TypedGen<'a> {
@@ -87,7 +88,13 @@ impl<'a> TypedGen<'a> {
                 }
             }
             Ty::Ts => E::cast(E::Str(t.pick(&TS_LITERALS).to_string()), "timestamp"),
-            Ty::Iv => E::cast(E::Str(t.pick(&IV_LITERALS).to_string()), "interval"),
+            Ty::Iv => {
+                if self.cfg.hazard && t.chance(1, 6) {
+                    E::cast(E::Str(t.pick(&IV_HAZARDS).to_string()), "interval")
+                } else {
+                    E::cast(E::Str(t.pick(&IV_LITERALS).to_string()), "interval")
+                }
+            }
             Ty::IntArr => {
                 let n = 1 + t.draw(3);
                 E::Array((0..n).map(|_| E::Int(t.range(0, 4))).collect())
